@@ -34,7 +34,7 @@ Proof.
 Qed.
 
 Lemma dom_kind c : pf_dom c -> wf_kind (kind_of (pf_kn c)) /\ ik_w (kind_of (pf_kn c)) <= 64.
-Proof. intros ((Hkn & _) & _). apply kind_of_wf. exact Hkn. Qed.
+Proof. intros (Hkn & _). apply kind_of_wf. exact Hkn. Qed.
 
 Lemma in_kind_mid k a x b : in_kind k a -> in_kind k b -> a <= x <= b -> in_kind k x.
 Proof. unfold in_kind. lia. Qed.
@@ -55,7 +55,7 @@ Lemma C12_static_proof c : pf_dom c ->
   pf_mode c = MEmpty \/ pf_mode c = MSerial \/ pf_mode c = MStatic ->
   exists l, static_calls c = Some l /\ contiguous (pf_s c) l (Z.max (pf_s c) (pf_e c)) /\ (pf_e c <= pf_s c -> l = []).
 Proof.
-  intros D M. pose proof D as ((Hkn & Hs & He & Hub & HN & HmT & Hmi & Hgr & Hfit & Hch) & Hovf).
+  intros D M. pose proof D as (Hkn & Hs & He & Hub & HN & HmT & Hmi & Hgr & Hfit & Hch).
   destruct (dom_kind c D) as [Hwf Hw64].
   unfold pf_mode in M. unfold static_calls.
   destruct (decide_inv c D) as [[E0 Pth]|[[E0 Pth]|[F Pth]]].
@@ -92,7 +92,7 @@ Lemma kmax_kind_pos kn : (kn < 8)%nat -> 127 <= kmax (kind_of kn).
 Proof. intros H. unfold kind_of. do 8 (destruct kn as [|kn]; [vm_compute; discriminate|]). lia. Qed.
 
 Lemma dyn_assemble k s e' e cs nl wait eg tail :
-  wf_kind k -> ik_w k <= 64 -> in_kind k s -> in_kind k e' -> s < e' -> 1 <= cs -> e' - s + cs < 2 ^ 63 ->
+  wf_kind k -> ik_w k <= 64 -> in_kind k s -> in_kind k e' -> s < e' -> 1 <= cs -> e' - s < 2 ^ 63 ->
   1 <= nl + b2z wait -> 1 <= eg <= nl + b2z wait ->
   (tail = [] /\ e' = e) \/ (tail = [(e', e)] /\ e' <= e) ->
   let dc := DC k s e' cs ((e' - s + cs - 1) / cs) nl wait eg tail in
@@ -130,7 +130,7 @@ Lemma auto_chunk_size c md : pf_dom c -> par_facts c -> pf_chunk c = 0 -> d_path
              = Some (cs, (d_trimmedEnd d - pf_s c + cs - 1) / cs) /\
              1 <= cs <= d_trimmedEnd d - pf_s c /\ (1 < d_g d -> (d_g d | cs)).
 Proof.
-  intros D F C0 Pth Hmd. pose proof D as ((Hkn & Hs & He & Hub & HN & HmT & Hmi & Hgr & Hfit & Hch) & Hovf).
+  intros D F C0 Pth Hmd. pose proof D as (Hkn & Hs & He & Hub & HN & HmT & Hmi & Hgr & Hfit & Hch).
   destruct (dom_kind c D) as [Hwf Hw64].
   destruct F as [Flt Fg Fg1 Fe Fdiv Ftt Ftf Frem FN Fmt Fmi Fadj]. cbv zeta.
   set (d := pf_decide c) in *. unfold pf_numToLaunch. fold d.
@@ -178,10 +178,10 @@ Lemma C12_dynamic_facts c l3 : pf_dom c -> pf_mode c = MDynamic ->
   exists cs eg,
     pf_dyncfg c l3 = Some (DC (kind_of (pf_kn c)) (pf_s c) (d_trimmedEnd (pf_decide c)) cs
                               ((d_trimmedEnd (pf_decide c) - pf_s c + cs - 1) / cs) (pf_numToLaunch c) (pf_wait c) eg (pf_tail c)) /\
-    1 <= cs /\ d_trimmedEnd (pf_decide c) - pf_s c + cs < 2 ^ 63 /\ (d_g (pf_decide c) | cs) /\
+    1 <= cs /\ d_trimmedEnd (pf_decide c) - pf_s c < 2 ^ 63 /\ (d_g (pf_decide c) | cs) /\
     1 <= pf_numToLaunch c + b2z (pf_wait c) /\ 1 <= eg <= pf_numToLaunch c + b2z (pf_wait c).
 Proof.
-  intros D M. pose proof D as ((Hkn & Hs & He & Hub & HN & HmT & Hmi & Hgr & Hfit & Hch) & Hovf).
+  intros D M. pose proof D as (Hkn & Hs & He & Hub & HN & HmT & Hmi & Hgr & Hfit & Hch).
   destruct (dom_kind c D) as [Hwf Hw64]. unfold pf_mode in M.
   destruct (decide_inv c D) as [[E0 Pth]|[[E0 Pth]|[F Pth]]]; [rewrite Pth in M; discriminate | rewrite Pth in M; discriminate|].
   split; [exact F|].
@@ -197,11 +197,6 @@ Proof.
     split; [lia|]. apply effective_groups_range. lia.
   - (* explicit chunk size *)
     assert (Ch : 1 <= pf_chunk c < kmax (kind_of (pf_kn c))) by (destruct Hch as [?|[?|?]]; [contradiction|contradiction|assumption]).
-    assert (Ovf : pf_e c - pf_s c + pf_chunk c < 2 ^ 63).
-    { unfold c12_chunkovf_domain in Hovf.
-      replace (pf_chunk c =? 0) with false in Hovf by (symmetry; apply Z.eqb_neq; lia).
-      replace (pf_chunk c =? kmax (kind_of (pf_kn c))) with false in Hovf by (symmetry; apply Z.eqb_neq; lia).
-      cbn [negb andb] in Hovf. apply Z.leb_gt in Hovf. exact Hovf. }
     rewrite calc_explicit_spec by lia. exists (pf_chunk c). eexists. split; [reflexivity|].
     assert (B : 0 <= b2z (pf_wait c) <= 1) by (destruct (pf_wait c); simpl; lia).
     assert (G1 : d_g (pf_decide c) = 1).
@@ -218,7 +213,7 @@ Lemma C12_dynamic_proof c l3 : pf_dom c -> pf_mode c = MDynamic ->
     (forall sched, dyn_complete dc sched = true -> Permutation (dyn_calls dc sched) (dyn_canon dc)) /\
     contiguous (pf_s c) (dyn_canon dc) (pf_e c).
 Proof.
-  intros D M. pose proof D as ((Hkn & Hs & He & Hub & HN & HmT & Hmi & Hgr & Hfit & Hch) & Hovf).
+  intros D M. pose proof D as (Hkn & Hs & He & Hub & HN & HmT & Hmi & Hgr & Hfit & Hch).
   destruct (dom_kind c D) as [Hwf Hw64].
   destruct (C12_dynamic_facts c l3 D M) as (F & cs & eg & E & Cs & Fit & _ & W1 & W2).
   pose proof (pf_tail_shape c F) as TS. destruct F as [Flt Fg Fg1 Fe Fdiv Ftt Ftf Frem FN Fmt Fmi Fadj].
@@ -236,7 +231,7 @@ Qed.
 
 Lemma stripe_assemble k s e' e P cs g tail :
   wf_kind k -> ik_w k <= 64 -> in_kind k s -> in_kind k e' -> s < e' -> (0 < P)%nat -> Z.of_nat P < 2 ^ 32 ->
-  1 <= cs -> castk k cs = cs ->
+  1 <= cs ->
   (tail = [] /\ e' = e) \/ (tail = [(e', e)] /\ e' <= e) ->
   let sc := SC k s e' P cs g tail in
   (forall sched, stripe_complete sc sched = true -> stripe_nowrap sc sched = true ->
@@ -245,8 +240,8 @@ Lemma stripe_assemble k s e' e P cs g tail :
   (forall sched F, 0 <= F -> (forall j, stripe_excess sc sched j <= F) ->
                    e' + (F + 1) * cs <= kmax (wide k) + 1 -> stripe_nowrap sc sched = true).
 Proof.
-  intros Hwf Hw64 Hs He Hse HP HP32 Hcs Hnar Ht sc.
-  assert (ST : sc_step sc = cs) by (subst sc; unfold sc_step; cbn [sc_k sc_cs]; exact Hnar).
+  intros Hwf Hw64 Hs He Hse HP HP32 Hcs Ht sc.
+  assert (ST : sc_step sc = cs) by reflexivity.
   destruct (stripe_bounds_from_spec k s e' (Z.of_nat P) g P 0 s ltac:(lia) ltac:(lia) HP) as [BC BL].
   assert (SBD : stripe_bounds sc = stripe_bounds_from k s e' (Z.of_nat P) g P 0 s) by reflexivity.
   assert (IN : forall j, s <= fst (sb sc j) /\ fst (sb sc j) <= snd (sb sc j) /\ snd (sb sc j) <= e').
@@ -274,15 +269,15 @@ Proof.
 Qed.
 
 (* the stripe configuration parallel_for_adaptiveWaitDispatch builds, in closed form *)
-Lemma C12_adaptive_facts c : pf_dom c -> pf_mode c = MAdaptive -> c12_narrow_domain c = false ->
+Lemma C12_adaptive_facts c : pf_dom c -> pf_mode c = MAdaptive -> 
   par_facts c /\ pf_wait c = true /\ pf_chunk c = 0 /\
   exists cs,
     pf_scfg c = Some (SC (kind_of (pf_kn c)) (pf_s c) (d_trimmedEnd (pf_decide c))
                          (Z.to_nat (pf_numToLaunch c + 1)) cs (d_g (pf_decide c)) (pf_tail c)) /\
     1 <= cs <= d_trimmedEnd (pf_decide c) - pf_s c /\ (d_g (pf_decide c) | cs) /\
-    castk (kind_of (pf_kn c)) cs = cs /\ 1 <= pf_numToLaunch c <= pf_N c.
+    1 <= pf_numToLaunch c <= pf_N c.
 Proof.
-  intros D M Nar. pose proof D as ((Hkn & Hs & He & Hub & HN & HmT & Hmi & Hgr & Hfit & Hch) & Hovf).
+  intros D M. pose proof D as (Hkn & Hs & He & Hub & HN & HmT & Hmi & Hgr & Hfit & Hch).
   destruct (dom_kind c D) as [Hwf Hw64].
   pose proof M as M'. unfold pf_mode in M'.
   destruct (decide_inv c D) as [[E0 Pth]|[[E0 Pth]|[F Pth]]]; [rewrite Pth in M'; discriminate | rewrite Pth in M'; discriminate|].
@@ -298,14 +293,12 @@ Proof.
   assert (SCE : pf_scfg c = Some (SC (kind_of (pf_kn c)) (pf_s c) (d_trimmedEnd (pf_decide c))
                                     (Z.to_nat (pf_numToLaunch c + 1)) cs (d_g (pf_decide c)) (pf_tail c))).
   { unfold pf_scfg. rewrite tie_calcChunkSize_of by exact Hkn. rewrite C0, E, W32. reflexivity. }
-  unfold c12_narrow_domain in Nar. rewrite M, SCE in Nar. apply negb_false_iff, Z.eqb_eq in Nar.
-  unfold sc_step in Nar; cbn [sc_k sc_cs] in Nar.
   exists cs. split; [exact SCE|]. split; [exact Cs|]. split.
   { destruct (Z.le_gt_cases (d_g (pf_decide c)) 1) as [L|L]; [replace (d_g (pf_decide c)) with 1 by lia; apply Z.divide_1_l | apply Dv; lia]. }
-  split; [exact Nar | exact NL].
+  exact NL.
 Qed.
 
-Lemma C12_adaptive_proof c : pf_dom c -> pf_mode c = MAdaptive -> c12_narrow_domain c = false ->
+Lemma C12_adaptive_proof c : pf_dom c -> pf_mode c = MAdaptive -> 
   pf_s c < pf_e c /\
   exists sc, pf_scfg c = Some sc /\
     (forall sched, stripe_complete sc sched = true -> stripe_nowrap sc sched = true ->
@@ -314,9 +307,9 @@ Lemma C12_adaptive_proof c : pf_dom c -> pf_mode c = MAdaptive -> c12_narrow_dom
     (forall sched F, 0 <= F -> (forall j, stripe_excess sc sched j <= F) -> c12_wrap_domain F c = false ->
                      stripe_nowrap sc sched = true).
 Proof.
-  intros D M Nar. pose proof D as ((Hkn & Hs & He & Hub & HN & HmT & Hmi & Hgr & Hfit & Hch) & Hovf).
+  intros D M. pose proof D as (Hkn & Hs & He & Hub & HN & HmT & Hmi & Hgr & Hfit & Hch).
   destruct (dom_kind c D) as [Hwf Hw64].
-  destruct (C12_adaptive_facts c D M Nar) as (F & Wt & C0 & cs & SCE & Cs & Dv & NarE & NL).
+  destruct (C12_adaptive_facts c D M) as (F & Wt & C0 & cs & SCE & Cs & Dv & NL).
   pose proof (pf_tail_shape c F) as TS.
   pose proof F as [Flt Fg Fg1 Fe Fdiv Ftt Ftf Frem FN Fmt Fmi Fadj].
   split; [exact Flt|].
@@ -324,11 +317,11 @@ Proof.
   assert (P31 : 2 ^ 31 < 2 ^ 32) by (apply Z.pow_lt_mono_r; lia).
   eexists. split; [exact SCE|].
   destruct (stripe_assemble (kind_of (pf_kn c)) (pf_s c) (d_trimmedEnd (pf_decide c)) (pf_e c) (Z.to_nat (pf_numToLaunch c + 1)) cs
-              (d_g (pf_decide c)) (pf_tail c) Hwf Hw64 Hs InE ltac:(lia) ltac:(lia) ltac:(lia) ltac:(lia) NarE TS) as (A1 & A2 & A3).
+              (d_g (pf_decide c)) (pf_tail c) Hwf Hw64 Hs InE ltac:(lia) ltac:(lia) ltac:(lia) ltac:(lia) TS) as (A1 & A2 & A3).
   split; [exact A1|]. split; [exact A2|].
   intros sched Fb HF Hex Hdom. apply (A3 sched Fb HF Hex).
   unfold c12_wrap_domain in Hdom. rewrite M, SCE in Hdom. apply Z.ltb_ge in Hdom.
-  unfold sc_step in Hdom; cbn [sc_k sc_cs sc_e] in Hdom. rewrite NarE in Hdom. lia.
+  unfold sc_step in Hdom; cbn [sc_k sc_cs sc_e] in Hdom. lia.
 Qed.
 
 (* ---------------------------------------------------------------- all modes *)
@@ -346,10 +339,10 @@ Definition c12_fail_bound (F : Z) (c : pfcfg) (x : exec) : Prop :=
   end.
 
 Lemma C12_holds_except_proof c x : pf_dom c -> pf_complete c x = true ->
-  c12_narrow_domain c = false -> c12_nowrap c x = true ->
+  c12_nowrap c x = true ->
   exists l, pf_calls c x = Some l /\ is_partition (pf_s c) (pf_e c) l.
 Proof.
-  intros D Hc Nar Nw. unfold pf_calls, pf_complete, c12_nowrap in *.
+  intros D Hc Nw. unfold pf_calls, pf_complete, c12_nowrap in *.
   destruct (pf_mode c) eqn:M.
   - destruct (C12_static_proof c D ltac:(left; exact M)) as (l & E & C & Z0). exists l. split; [exact E|].
     split; [exact Z0|]. intros Lt. exists l. split; [apply Permutation_refl|]. rewrite Z.max_r in C by lia. exact C.
@@ -357,7 +350,7 @@ Proof.
     split; [exact Z0|]. intros Lt. exists l. split; [apply Permutation_refl|]. rewrite Z.max_r in C by lia. exact C.
   - destruct (C12_static_proof c D ltac:(right; right; exact M)) as (l & E & C & Z0). exists l. split; [exact E|].
     split; [exact Z0|]. intros Lt. exists l. split; [apply Permutation_refl|]. rewrite Z.max_r in C by lia. exact C.
-  - destruct (C12_adaptive_proof c D M Nar) as (Lt & sc & E & A1 & A2 & _). rewrite E in *.
+  - destruct (C12_adaptive_proof c D M) as (Lt & sc & E & A1 & A2 & _). rewrite E in *.
     eexists. split; [reflexivity|]. eapply is_partition_of_perm; [exact Lt | apply A1; assumption | exact A2].
   - destruct (C12_dynamic_proof c (ex_l3 x) D M) as (Lt & dc & E & A1 & A2). rewrite E in *.
     eexists. split; [reflexivity|]. eapply is_partition_of_perm; [exact Lt | apply A1; assumption | exact A2].
@@ -365,12 +358,12 @@ Qed.
 
 (* the same with the no-wrap hypothesis discharged from a bound on failed claims and the domain predicate *)
 Lemma C12_holds_except_budget_proof c x F : pf_dom c -> pf_complete c x = true -> 0 <= F ->
-  c12_narrow_domain c = false -> c12_wrap_domain F c = false -> c12_fail_bound F c x ->
+  c12_wrap_domain F c = false -> c12_fail_bound F c x ->
   exists l, pf_calls c x = Some l /\ is_partition (pf_s c) (pf_e c) l.
 Proof.
-  intros D Hc HF Nar Wd Fb. apply C12_holds_except_proof; try assumption.
+  intros D Hc HF Wd Fb. apply C12_holds_except_proof; try assumption.
   unfold c12_nowrap, c12_fail_bound in *. destruct (pf_mode c) eqn:M; try reflexivity.
-  destruct (C12_adaptive_proof c D M Nar) as (Lt & sc & E & _ & _ & A3). rewrite E in *. apply (A3 _ F); assumption.
+  destruct (C12_adaptive_proof c D M) as (Lt & sc & E & _ & _ & A3). rewrite E in *. apply (A3 _ F); assumption.
 Qed.
 
 (* ---------------------------------------------------------------- refutation *)
@@ -415,17 +408,16 @@ Definition c12_witness_prefix : list (nat * nat) := own_then_poll 2 9.
 Lemma c12_witness_dom : pf_dom c12_witness.
 Proof.
   unfold pf_dom, pf_dom_wide. cbn [c12_witness pf_kn pf_s pf_e pf_chunk pf_N pf_maxThreads pf_minItems pf_gran].
-  split; [|vm_compute; reflexivity].
   split; [lia|]. unfold kind_of, in_kind; cbn [nth all_kinds U64 kmin kmax ik_signed ik_w].
   repeat split; try lia; try (intros; discriminate).
 Qed.
 
 Lemma C12_refuted_proof :
-  pf_dom c12_witness /\ pf_mode c12_witness = MAdaptive /\ c12_narrow_domain c12_witness = false /\
+  pf_dom c12_witness /\ pf_mode c12_witness = MAdaptive /\
   forall more l, pf_calls c12_witness (EX 0 [] (c12_witness_prefix ++ more)) = Some l ->
     In (5, 12) l /\ ~ is_partition (pf_s c12_witness) (pf_e c12_witness) l.
 Proof.
-  split; [exact c12_witness_dom|]. split; [vm_compute; reflexivity|]. split; [vm_compute; reflexivity|].
+  split; [exact c12_witness_dom|]. split; [vm_compute; reflexivity|].
   intros more l. unfold pf_calls. replace (pf_mode c12_witness) with MAdaptive by (vm_compute; reflexivity).
   destruct (pf_scfg c12_witness) as [sc|] eqn:E; [|vm_compute in E; discriminate].
   cbn [ex_stripe]. intros H. inversion H; subst l; clear H.
@@ -453,35 +445,20 @@ Proof.
   intros Hc. eapply is_partition_of_perm; [exact Lt | apply A1; exact Hc | exact A2].
 Qed.
 
-Lemma C12_adaptive_partition_proof c sched : pf_dom c -> pf_mode c = MAdaptive -> c12_narrow_domain c = false ->
+Lemma C12_adaptive_partition_proof c sched : pf_dom c -> pf_mode c = MAdaptive -> 
   exists sc, pf_scfg c = Some sc /\
     (stripe_complete sc sched = true -> stripe_nowrap sc sched = true ->
      is_partition (pf_s c) (pf_e c) (stripe_calls sc sched)) /\
     (forall F, 0 <= F -> (forall j, stripe_excess sc sched j <= F) -> c12_wrap_domain F c = false ->
                stripe_nowrap sc sched = true).
 Proof.
-  intros D M Nar. destruct (C12_adaptive_proof c D M Nar) as (Lt & sc & E & A1 & A2 & A3). exists sc. split; [exact E|]. split.
+  intros D M. destruct (C12_adaptive_proof c D M) as (Lt & sc & E & A1 & A2 & A3). exists sc. split; [exact E|]. split.
   - intros Hc Hn. eapply is_partition_of_perm; [exact Lt | apply A1; assumption | exact A2].
   - intros F. apply A3.
 Qed.
 
 
-(* finding explicit-chunk-overflow-64bit: uint64 [0,100) with explicit chunk 2^64-50, 4-thread pool: numChunks wraps to 0,
-   every worker's first claim fails, the body is never called -- a COMPLETE execution that is not a partition *)
+(* the witness of the former finding explicit-chunk-overflow-64bit (uint64 [0,100) with explicit chunk 2^64-50, 4-thread
+   pool: numChunks = (size + chunk - 1) / chunk wrapped to 0 and the body was never called); numChunks is now computed as
+   size / chunk + (size % chunk != 0) *)
 Definition c12_chunkovf_witness : pfcfg := PF 7 0 100 (2 ^ 64 - 50) 4 2147483647 1 1 true.
-
-Lemma C12_refuted_chunk_overflow_proof :
-  pf_dom_wide c12_chunkovf_witness /\ c12_chunkovf_domain c12_chunkovf_witness = true /\
-  let x := EX 0 [0; 1; 2; 3; 4]%nat [] in
-  pf_complete c12_chunkovf_witness x = true /\ pf_calls c12_chunkovf_witness x = Some [] /\
-  ~ is_partition (pf_s c12_chunkovf_witness) (pf_e c12_chunkovf_witness) [].
-Proof.
-  split.
-  { unfold pf_dom_wide. cbn [c12_chunkovf_witness pf_kn pf_s pf_e pf_chunk pf_N pf_maxThreads pf_minItems pf_gran].
-    split; [lia|]. unfold kind_of, in_kind; cbn [nth all_kinds U64 kmin kmax ik_signed ik_w].
-    repeat split; try lia; try (intros; discriminate). }
-  split; [vm_compute; reflexivity|]. cbv zeta.
-  split; [vm_compute; reflexivity|]. split; [vm_compute; reflexivity|].
-  intros [_ P]. destruct (P ltac:(vm_compute; reflexivity)) as (l' & Pm & C).
-  apply Permutation_nil in Pm. subst l'. cbn [contiguous] in C. vm_compute in C. discriminate.
-Qed.
